@@ -40,6 +40,7 @@ type Graph struct {
 	Info   *types.Info
 	Fset   *token.FileSet
 	Defers []*ast.DeferStmt
+	depth  int
 	Threaded int // join blocks duplicated for an entering edge that decides their nil test (prune.go)
 	Pruned int // conditional edges removed because they contradict the known nil-ness of a local (prune.go)
 }
@@ -197,6 +198,15 @@ func (g *Graph) split(b *Block, c ast.Expr, t, f *Block) {
 		return
 	}
 	switch x := c.(type) {
+	case *ast.Ident:
+		// a bool local that names a condition once and for all (`hasIO := ev&mask != 0 … if !hasIO && …`):
+		// the edges are labelled with the condition it stands for
+		if def := g.stableBoolDef(x); def != nil && g.depth < 4 {
+			g.depth++
+			g.split(b, def, t, f)
+			g.depth--
+			return
+		}
 	case *ast.UnaryExpr:
 		if x.Op == token.NOT {
 			g.split(b, x.X, f, t)
@@ -430,4 +440,118 @@ func (g *Graph) InlineStraight(resolve func(call *ast.CallExpr) []ast.Stmt) {
 			b.Nodes = out
 		}
 	}
+}
+
+// stableBoolDef returns the defining expression of a bool local that is assigned exactly once in the
+// function (not inside a function literal), whose address is never taken, and whose definition mentions
+// only variables that are themselves never assigned after their own definition (parameters, other such
+// locals) and no calls – so that the condition means the same wherever the local is tested.
+func (g *Graph) stableBoolDef(id *ast.Ident) ast.Expr {
+	v, ok := g.Info.Uses[id].(*types.Var)
+	if !ok || v.IsField() || !types.Identical(v.Type().Underlying(), types.Typ[types.Bool]) {
+		return nil
+	}
+	count := func(w *types.Var) (n int, def ast.Expr, bad bool) {
+		var walk func(node ast.Node, lit bool)
+		walk = func(node ast.Node, lit bool) {
+			ast.Inspect(node, func(x ast.Node) bool {
+				switch y := x.(type) {
+				case *ast.FuncLit:
+					if !lit {
+						walk(y.Body, true)
+						return false
+					}
+				case *ast.AssignStmt:
+					for i, l := range y.Lhs {
+						if lid, ok := l.(*ast.Ident); ok && (g.Info.Defs[lid] == types.Object(w) || g.Info.Uses[lid] == types.Object(w)) {
+							n++
+							if lit {
+								bad = true
+							}
+							if len(y.Lhs) == len(y.Rhs) {
+								def = y.Rhs[i]
+							} else {
+								bad = true
+							}
+						}
+					}
+				case *ast.ValueSpec:
+					// `var x T` is a definition too (the zero value)
+					for _, nm := range y.Names {
+						if g.Info.Defs[nm] == types.Object(w) {
+							n++
+							def = nil
+							if len(y.Values) == len(y.Names) {
+								for i, nn := range y.Names {
+									if nn == nm {
+										def = y.Values[i]
+									}
+								}
+							}
+						}
+					}
+				case *ast.IncDecStmt:
+					if lid, ok := y.X.(*ast.Ident); ok && g.Info.Uses[lid] == types.Object(w) {
+						bad = true
+					}
+				case *ast.UnaryExpr:
+					if y.Op == token.AND {
+						if lid, ok := ast.Unparen(y.X).(*ast.Ident); ok && g.Info.Uses[lid] == types.Object(w) {
+							bad = true
+						}
+					}
+				case *ast.RangeStmt:
+					for _, e := range []ast.Expr{y.Key, y.Value} {
+						if lid, ok := e.(*ast.Ident); ok && (g.Info.Defs[lid] == types.Object(w) || g.Info.Uses[lid] == types.Object(w)) {
+							bad = true
+						}
+					}
+				}
+				return true
+			})
+		}
+		walk(g.Body, false)
+		return
+	}
+	n, def, bad := count(v)
+	if n != 1 || bad || def == nil {
+		return nil
+	}
+	okk := true
+	ast.Inspect(def, func(x ast.Node) bool {
+		switch y := x.(type) {
+		case *ast.CallExpr:
+			if fid, ok := y.Fun.(*ast.Ident); ok {
+				if _, builtin := g.Info.Uses[fid].(*types.Builtin); builtin {
+					return true
+				}
+			}
+			okk = false
+		case *ast.Ident:
+			if w, ok := g.Info.Uses[y].(*types.Var); ok && !w.IsField() && w.Pkg() != nil && w.Parent() != w.Pkg().Scope() {
+				if m, _, b := count(w); m > 1 || b {
+					okk = false
+				}
+			} else if ok && w.IsField() {
+				okk = false // a field may change between definition and test
+			}
+		case *ast.SelectorExpr:
+			if _, isPkg := g.Info.Uses[identOfExpr(y.X)].(*types.PkgName); !isPkg {
+				if tv, ok := g.Info.Types[y]; !ok || tv.Value == nil {
+					okk = false // field access
+				}
+			}
+			return false
+		}
+		return okk
+	})
+	if !okk {
+		return nil
+	}
+	return def
+}
+
+func identOfExpr(e ast.Expr) *ast.Ident {
+	id, _ := ast.Unparen(e).(*ast.Ident)
+	return id
 }
